@@ -214,6 +214,17 @@ for _p in ("C01", "C02", "C03", "C04", "C05", "C06", "C07", "C08", "C09", "C11",
         if _h not in CHECKS[_p].harnesses:
             CHECKS[_p].harnesses.append(_h)
 
+# the overlap array with a screening tolerance is a Gram matrix only up to what the screening contract (C20) allows
+for _h in ("contracts.screening:IsScreened", "contracts.screening:OverlapScreenedBlock"):
+    if _h not in CHECKS["C17"].harnesses:
+        CHECKS["C17"].harnesses.append(_h)
+
+# wherever the dispatch of the public wrappers is discharged, the asymmetric overlap wrapper (two bases, two transformations, two
+# lists of coordinate types) is discharged as well
+for _p, _c in CHECKS.items():
+    if "contracts.dispatch:Dispatch" in _c.harnesses and "contracts.dispatch:DispatchAsymm" not in _c.harnesses:
+        _c.harnesses.append("contracts.dispatch:DispatchAsymm")
+
 # the public evaluation entry points (dispatch on the coordinate types, one-index assembly, block routines, orbital-derivative kernel)
 # are what every property about densities and density-derived fields calls first: their contracts are re-discharged with each
 EVAL_CHAIN = ["contracts.dispatch:Dispatch", "contracts.assembly:OneIndex", "contracts.deriv:EvalBlocks", "contracts.deriv:GeneralKernel@quick"]
